@@ -59,7 +59,7 @@ def project(t):
     ok = k != OFFGRID
     k = np.where(ok, np.mod(k, N), OFFGRID)
     sp = [SP_NAMES.index(s.symbol) for s in t.species]
-    return {'pos': k.tolist(), 'sp': sp, 'dt': int(round(t.time_step * 1e15)), 'meta': meta_code(t.metadata), 'lat': lat_code(t),
+    return {'pos': k.tolist(), 'sp': sp, 'dt': (int(round(t.time_step * 1e15)) if isinstance(t.time_step, (int, float)) else -1), 'meta': meta_code(t.metadata), 'lat': lat_code(t),
             'dead': False}
 
 
